@@ -1,6 +1,7 @@
 package main
 
 import (
+	"os"
 	"fmt"
 	"go/token"
 	"go/types"
@@ -543,7 +544,21 @@ func ruleRunContainer(r *Run) {
 	}
 	// function that constructs Run
 	var runFn *ssa.Function
+	// the run reader returns one Run (other readers may build Run literals too: field markers)
 	for _, f := range m.Funcs {
+		res := f.Signature.Results()
+		for i := 0; i < res.Len() && runFn == nil; i++ {
+			if typeIs(res.At(i).Type(), pkgDoc, "Run") {
+				if _, isSl := res.At(i).Type().Underlying().(*types.Slice); !isSl {
+					runFn = f
+				}
+			}
+		}
+	}
+	for _, f := range m.Funcs {
+		if runFn != nil {
+			break
+		}
 		allInstrs(f, func(in ssa.Instruction) {
 			if a, ok := in.(*ssa.Alloc); ok && typeIs(a.Type(), pkgDoc, "Run") {
 				if _, isArr := derefType(a.Type()).Underlying().(*types.Array); !isArr && runFn == nil {
@@ -581,6 +596,15 @@ func ruleRunContainer(r *Run) {
 		if isColl || f == pfn {
 			collectors = append(collectors, f)
 		}
+	}
+	if os.Getenv("WZDEBUG") != "" {
+		for _, f := range m.Funcs {
+			fmt.Fprintln(os.Stderr, "reader", shortName(f), len(m.ElemCmps[f]))
+			for _, c := range m.ElemCmps[f] {
+				fmt.Fprintln(os.Stderr, "   cmp", c.Const, len(c.Region))
+			}
+		}
+		fmt.Fprintln(os.Stderr, "runFn", shortName(runFn))
 	}
 	r.Min("run_collecting_readers", len(collectors), 1)
 	for _, f := range collectors {
